@@ -348,21 +348,28 @@ CHECKS = {
             "max_paths": {"quick": 60000, "thorough": 600000},
             "timeout": {"quick": "10m", "thorough": "60m"},
             "covers": {"VerifC17Concurrent": ["written", "reloaded"]},
+        }, {
+            "pkg": BS, "funcs": ["VerifC17WritersAndReplication"],
+            "params": {"quick": {"W": 2, "P": 1}, "thorough": {"W": 3, "P": 2}},
+            "max_paths": {"quick": 60000, "thorough": 600000},
+            "timeout": {"quick": "10m", "thorough": "60m"},
+            "covers": {"VerifC17WritersAndReplication": ["written", "reloaded"]},
         }],
         "assumptions": [
             "W writer goroutines on one real BaseStore (InitBaseStore over stubs) calling the real AddOperation with the real ipfs-log Append; payloads symbolic",
             "schedule: run-to-block with FIFO hand-over; at every visible operation (mutex/rwmutex lock+unlock, channel send/receive/select/close, go, waitgroup wait, cache write, block write) the path may preempt the running thread, at most P times per path (CHESS-style preemption bounding); every such schedule is explored",
             "then Close, a fresh store over the same cache and block store, real Load(-1) with the real ipfs-log fetcher",
+            "writers racing a replication (VerifC17WritersAndReplication): W writers and the real Sync -> replicator -> replicationLoadComplete of a remote writer's entry on the same store under every schedule with at most P preemptions; live log = one entry per call + the replicated one; after restart every acknowledged local entry and the replicated entry are still there",
             "schedule-dependent counterexamples are replayed natively by forcing the recorded order of stub effects (block writes, cache writes) with a turnstile",
         ],
         "outside": ["data races below visible-operation granularity (no memory-model exploration)", "more than P preemptions, more than W writers"],
     },
     "C20": {
         "groups": [{
-            "cross_solvers": ["cvc5", "z3-new"], "pkg": PSC, "funcs": ["VerifC20PeersDiff", "VerifC20SelfFilter", "VerifC20WatchPeers"],
+            "cross_solvers": ["cvc5", "z3-new"], "pkg": PSC, "funcs": ["VerifC20PeersDiff", "VerifC20SelfFilter", "VerifC20WatchPeers", "VerifC20TwoWatchers"],
             "params": {"quick": {"P": 3, "S": 3, "M": 3}, "thorough": {"P": 3, "S": 4, "M": 5}},
             "max_paths": {"quick": 60000, "thorough": 400000},
-            "covers": {"VerifC20PeersDiff": ["diffed"], "VerifC20SelfFilter": ["drained"], "VerifC20WatchPeers": ["watched"]},
+            "covers": {"VerifC20PeersDiff": ["diffed"], "VerifC20SelfFilter": ["drained"], "VerifC20WatchPeers": ["watched"], "VerifC20TwoWatchers": ["watched"]},
         }, {
             "pkg": OOO, "funcs": ["VerifC20ChannelID", "VerifC20Monitor", "VerifC20ConnectRace", "VerifC20Reconnect"],
             "params": {"quick": {"L": 2, "M": 3, "P": 1}, "thorough": {"L": 3, "M": 5, "P": 2}},
@@ -387,7 +394,7 @@ CHECKS = {
             "messages: M scripted messages, each from the local peer or a remote one, 1 symbolic byte body; the real WatchMessages / monitorTopic goroutines run in the interpreter",
             "pairwise channel registration: two overlapping Connect calls for the same peer under every schedule with at most P preemptions (the subscribe call is a preemption point); timers run on virtual time (they fire only when nothing else can run)",
             "channel names: peer ids are symbolic strings of length L without '/'; sort.Slice is a stable insertion sort over the real less closure",
-            "polling loop: the real WatchPeers goroutine (one poll per interval on VIRTUAL time) over every sequence of S snapshots of P peers, per-peer transition sequences compared; topic reuse, Publish, Peers; public construction path of the direct channel (InitDirectChannelFactory / NewChannel: stream handler registered under the protocol id, frame through that handler, Close removes the handler and closes the emitter)",
+            "polling loop: the real WatchPeers goroutine (one poll per interval on VIRTUAL time) over every sequence of S snapshots of P peers, per-peer transition sequences compared; two watchers on one topic of which one is cancelled at once / after the first event / never (every change still reported exactly once over both); topic reuse, Publish, Peers; public construction path of the direct channel (InitDirectChannelFactory / NewChannel: stream handler registered under the protocol id, frame through that handler, Close removes the handler and closes the emitter)",
             "subscription lifetime: Connect with a caller's context, that context ends while the channel object lives on, Connect again: 1..2 later payloads of the remote peer are delivered exactly once; Close ends every monitor",
             "frames: payloads of 0..L symbolic bytes through the real Send -> varint -> handleNewPeer path over a byte-pipe stream stub; plus ANY raw stream of 0..B bytes",
             "pubsubraw adapter: the real NewPubSub / TopicSubscribe / WatchPeers / WatchMessages / Publish / Peers over scripted stand-ins for libp2p-pubsub's concrete Topic, TopicEventHandler and Subscription (methods replaced by name; NextPeerEvent / Next return the next scripted item or block until the context ends): every sequence of up to E join/leave events over P peers, every sequence of up to M messages each from the local peer or a remote one with 0..2 symbolic bytes; a violation in this group is reported on the interpreter's execution alone (confirmation: interpreter-only)",
@@ -429,6 +436,9 @@ CHECKS = {
             "timeout": {"quick": "10m", "thorough": "40m"},
             "covers": {"VerifC06Replay": ["replayed"]},
         }, {
+            "cross_solvers": ["cvc5", "z3-new"], "pkg": KV, "funcs": ["VerifC06ClockOrder"],
+            "covers": {"VerifC06ClockOrder": ["two-writers", "causal-successor"]},
+        }, {
             "pkg": KV, "funcs": ["VerifC06ReadDuringWrite"],
             "max_paths": {"quick": 60000, "thorough": 400000},
             "covers": {"VerifC06ReadDuringWrite": ["put", "delete", "merge", "read-during-write"]},
@@ -444,6 +454,7 @@ CHECKS = {
             "earlier index state = replay of an arbitrary sub-listing (models earlier merges of any subset)",
             "store built by the real NewOrbitDBKeyValue/InitBaseStore over stub IPFS/bus/cache; the log handed to the index is a stub exposing Values()",
             "encoding/json replaced by an idealised injective codec driven by the struct tags (omitempty honoured)",
+            "clock order (VerifC06ClockOrder): two writers put the same key in entries whose Lamport times are ANY values in [1, 2^40] (symbolic; far beyond what a bounded history reaches), merged through the real Sync; the later one in the (time, writer) order wins, the listing ends with it, and a causal successor (next link, time + 1) overrides both",
             "reads during writes (VerifC06ReadDuringWrite): All and Get started at ANY visible operation of a Put / Delete / merge of a remote batch; afterwards All (twice) and Get equal the replay of the log",
         ],
         "outside": ["N beyond the bound", "keys longer than 1 byte / non-UTF-8 keys rewritten by real JSON", "histories longer than STEPS with the real ipfs-log (VerifC01KV checks view == replay of the held log after every step of a two-writer history, which includes the happens-before clause because the log order comes from the real Append/Join clocks)"],
